@@ -65,6 +65,11 @@ def _build():
     reg.add(S.schema2("fracw_cat_x_mr", A, M, weighted=True), FW, configs=[{}], quick=2, thorough=3)
     reg.add(S.schema2("fracw_cat_x_cat", A, S.cat("b", 2, "first"), weighted=True), FW, configs=[{}], quick=2, thorough=3)
     reg.add(S.schema2("fracw_mr_x_mr", M, N_, weighted=True), FW, configs=[{}], quick=2, thorough=2)
+    # weights spanning nine orders of magnitude: a positive share below 1e-8 is still a share
+    TW = (1e-9, 1)
+    reg.add(S.schema2("tinyshare_cat_x_cat", A, S.cat("b", 2, "first"), weighted=True), TW, configs=[{}], quick=2, thorough=3)
+    reg.add(S.schema2("tinyshare_mr_x_cat", M, A, weighted=True), TW, configs=[{}], quick=2, thorough=2)
+    reg.add(S.schema2("tinyshare_cat_x_mr", A, M, weighted=True), TW, configs=[{}], quick=2, thorough=2)
     # responses carrying a numeric mean: every count is a count of respondents with a valid numeric
     # answer (weighted and unweighted valid counts both present), and so is the unconditional share
     num = {"measures": ["mean"], "valid_counts": True}
